@@ -94,7 +94,7 @@ def sp_scale(apis):
                 ('nest-attr', 100000 if big else 20000), ('siblings', 100000), ('attrs', 100000 if big else 3000), ('nsdecls', 60000 if big else 3000),
                 ('text', 400000 if big else 100000), ('text-cr', 200000 if big else 50000), ('comments', 100000),
                 ('entity-nest', 9), ('entity-nest', 10), ('entity-nest', 11), ('entity-nest', 200),
-                ('toprefs', 100000), ('nonascii-lines', 100000 if big else 20000)]
+                ('toprefs', 100000), ('nonascii-lines', 100000 if big else 20000), ('ns-nested', 400), ('ns-siblings-nested', 66000)]
         if apis:
             fams = [('nest', 100000 if big else 20000), ('siblings', 100000), ('nonascii-lines', 100000 if big else 20000),
                     ('attrs', 20000 if big else 2000), ('nsdecls', 20000 if big else 2000), ('text', 100000),
@@ -120,9 +120,11 @@ def sp_scale(apis):
 
 def sp_ns_scale(pid, cfg, tier, seed, exe, chk, violations, broken, notes):
     res = {'evaluations': 0, 'samples': [], 'extra_distinct': 0}
-    plan = [(65534, 'default', 'ok'), (65535, 'default', 'ok'), (65536, 'default', 'limit'), (65535, 'prefixed', 'ok'), (65536, 'prefixed', 'limit')]
+    plan = [(65534, 'default', 'ok'), (65535, 'default', 'ok'), (65536, 'default', 'limit'), (65535, 'prefixed', 'ok'), (65536, 'prefixed', 'limit'),
+            (65535, 'full-repeat', 'ok'), (70000, 'many-entries', 'ok'), (70000, 'many-refs', 'ok'), (65536, 'over-dup', 'anyerr'), (65535, 'over-dup', 'anyerr')]
     if tier == 'quick':
-        plan = [(65535, 'default', 'ok'), (65536, 'default', 'limit'), (65536, 'prefixed', 'limit')]
+        plan = [(65535, 'default', 'ok'), (65536, 'default', 'limit'), (65536, 'prefixed', 'limit'),
+                (65535, 'full-repeat', 'ok'), (70000, 'many-entries', 'ok'), (70000, 'many-refs', 'ok'), (65536, 'over-dup', 'anyerr')]
     for n, mode, expect in plan:
         try:
             r = subprocess.run([exe, 'nsscale', str(n), mode], capture_output=True, text=True, timeout=600, env=ENV)
@@ -131,7 +133,7 @@ def sp_ns_scale(pid, cfg, tier, seed, exe, chk, violations, broken, notes):
             line = 'timeout'
         res['evaluations'] += 1
         res['extra_distinct'] += 1
-        good = (expect == 'ok' and ' ok bad=0' in line) or (expect == 'limit' and 'NamespacesLimitReached' in line)
+        good = (expect == 'ok' and ' ok bad=0' in line) or (expect == 'limit' and 'NamespacesLimitReached' in line) or (expect == 'anyerr' and ' err ' in line)
         if not good:
             violations.append({'kind': 'impl-oracle', 'concrete': True,
                                'what': f'{n} distinct namespaces ({mode}): expected {expect}, got: {line[:300]}',
@@ -204,11 +206,14 @@ def sp_gen_tie(gens_quick, gens_thorough):
         return res
     return f
 
-def sp_verdict(cmd, gens_quick, gens_thorough, kind, also=None):
+def sp_verdict(cmd, gens_quick, gens_thorough, kind, also=None, limits=False):
     def f(pid, cfg, tier, seed, exe, chk, violations, broken, notes):
         cases = []
         for spec in (gens_quick if tier == 'quick' else gens_thorough):
             cases += chk.gen_cases(exe, spec, seed)
+        if limits:
+            import props as P
+            cases = P.with_limits(cases, seed)
         ok, fails, crashes = run_verdicts(exe, cmd, seed, cases)
         add_fails(violations, fails, kind, cfg, notes)
         for c in crashes:
@@ -337,6 +342,13 @@ def sp_threads(pid, cfg, tier, seed, exe, chk, violations, broken, notes):
     # (RUSTFLAGS set by check.build_harness(forbid_unsafe=True) for this property only)
     if not exe.rstrip('/').endswith(os.path.join('harness-rox-std-rox-positions-c20', 'release', 'roxh')):
         broken.append({'obligation': 'unsafe ban', 'detail': 'C20 must run on the harness built with the c20 feature and -F unsafe_code'})
+    # the same obligations with the crate's `std` feature off (and with neither feature): the auto
+    # traits must not depend on the feature set
+    for feats in (['rox-positions', 'c20'], ['c20']):
+        e2, log = chk.build_harness(feats, forbid_unsafe=True)
+        if e2 is None:
+            broken.append({'obligation': 'Send/Sync assertions and -F unsafe_code with roxmltree features ' + (','.join(f for f in feats if f != 'c20') or 'none'),
+                           'detail': log[-1200:]})
     src = open('/repo/src/lib.rs').read()
     notes.append('crate root has #![forbid(unsafe_code)]: ' + str('#![forbid(unsafe_code)]' in src))
     for fn in os.listdir('/repo/src'):
@@ -357,6 +369,45 @@ def sp_threads(pid, cfg, tier, seed, exe, chk, violations, broken, notes):
 
 M = ['model', 1500, 10]
 MT = ['model', 20000, 10]
+def chain(*sps):
+    """run several special runs one after the other and add up what they report"""
+    def f(pid, cfg, tier, seed, exe, chk, violations, broken, notes):
+        res = {}
+        for sp in sps:
+            r2 = sp(pid, cfg, tier, seed, exe, chk, violations, broken, notes) or {}
+            for k, v in r2.items():
+                if isinstance(v, int) and not isinstance(v, bool):
+                    res[k] = res.get(k, 0) + v
+                elif k == 'samples':
+                    res.setdefault('samples', []).extend(v)
+                elif k == 'distribution':
+                    d = res.setdefault('distribution', collections.Counter())
+                    d.update(v)
+                else:
+                    res[k] = v
+        return res
+    return f
+
+def sp_ns_edge(modes):
+    """situations at the namespace limit that belong to other properties than C06 too"""
+    def f(pid, cfg, tier, seed, exe, chk, violations, broken, notes):
+        res = {'evaluations': 0, 'extra_distinct': 0}
+        for n, mode, expect in modes:
+            try:
+                r = subprocess.run([exe, 'nsscale', str(n), mode], capture_output=True, text=True, timeout=600, env=ENV)
+                line = r.stdout.strip()
+            except subprocess.TimeoutExpired:
+                line = 'timeout'
+            res['evaluations'] += 1
+            res['extra_distinct'] += 1
+            good = (expect == 'ok' and ' ok bad=0' in line) or (expect == 'anyerr' and ' err ' in line)
+            if not good:
+                violations.append({'kind': 'impl-oracle', 'concrete': True,
+                                   'what': f'namespace-limit situation {mode} (n={n}): expected {expect}, got: {line[:300]}',
+                                   'case': {'generator': f'roxh nsscale {n} {mode}'}})
+        return res
+    return f
+
 def sp_dbg_build(then):
     """C01 quantifies over builds with and without debug-assertions / overflow-checks: the same
     generated inputs (and the corpus) are parsed by a harness built with both switched on
@@ -387,6 +438,14 @@ def sp_dbg_build(then):
             if P.res_kind(P.res_line(il)) == 'panic':
                 violations.append({'kind': 'impl-oracle', 'concrete': True, 'what': 'debug-assertions build: parse panicked: ' + P.res_line(il)[:200],
                                    'case': chk.case_text(il)})
+        # scale families in the debug build too (assertions about sizes and indices live there)
+        for fam, k in [('nest', 20000), ('ns-nested', 400), ('ns-siblings-nested', 66000), ('attrs', 3000), ('nsdecls', 3000), ('entity-nest', 10),
+                       ('longname-edge', 65300), ('toprefs', 20000)]:
+            st, lines, err = scale_run(dexe, fam, k, 240)
+            n += 1
+            if st != 'ok' or any(' parse=panic' in l or (l.startswith('SCALEAPI') and ' panic' in l) for l in lines):
+                violations.append({'kind': 'crash', 'concrete': True, 'what': f'debug-assertions build: scale family {fam} n={k}: {st} {" ".join(lines)[:200]} {err[-200:]}',
+                                   'case': {'generator': f'roxh(dbg) scale {fam} {k}'}})
         notes.append(f'debug-assertions + overflow-checks build: {n} inputs parsed')
         res['evaluations'] = res.get('evaluations', 0) + n
         return res
@@ -394,27 +453,31 @@ def sp_dbg_build(then):
 
 SPECIALS = {
     'scale_parse': sp_dbg_build(sp_scale(False)),
-    'scale_api': sp_scale(True),
+    'scale_api': chain(sp_scale(True), sp_verdict('crossattr', [['model', 300, 0], ['ns', 1]], [['model', 2000, 0], ['ns', 5]], 'impl-oracle')),
     'ns_scale': sp_ns_scale,
     'hoist': sp_verdict('hoist', [['model', 3000, 0]], [['model', 40000, 0]], 'impl-oracle',
                         also=sp_gen_tie([['entities', 8]], [['entities', 32]])),
-    'illform': sp_verdict('illform', [['model', 400, 0]], [['model', 5000, 0], ['fixtures', 3000]], 'impl-oracle',
-                          also=sp_gen_tie([['entity-boundary', 1], ['exotic', 10]], [['entity-boundary', 1], ['exotic', 100]])),
-    'entities': sp_gen_tie([['entities', 8], ['entity-boundary', 1]], [['entities', 32], ['entity-boundary', 1]]),
+    'illform': chain(sp_verdict('illform', [['model', 400, 0]], [['model', 5000, 0], ['fixtures', 3000]], 'impl-oracle',
+                                also=sp_gen_tie([['entity-boundary', 1], ['exotic', 10]], [['entity-boundary', 1], ['exotic', 100]])),
+                     sp_ns_edge([(65536, 'over-dup', 'anyerr')])),
+    'entities': chain(sp_gen_tie([['entities', 8], ['entity-boundary', 1]], [['entities', 32], ['entity-boundary', 1]]),
+                      sp_ns_edge([(70000, 'many-refs', 'ok')])),
     'shift': sp_verdict('shift', [M], [MT, ['mut', 5000, 400]], 'impl-oracle',
                         also=sp_verdict('shapes', [M, ['fixtures', 4000], ['longattr', 1]], [MT, ['fixtures', 20000], ['longattr', 1]], 'impl-oracle')),
     'errshift': sp_verdict('shift', [['model', 1500, 40], ['mut', 1500, 300]], [['model', 20000, 40], ['mut', 20000, 400]], 'impl-oracle',
                            also=sp_gen_tie([['exotic', 10]], [['exotic', 100]])),
     'limits': sp_verdict('limits', [M, ['mut', 500, 300], ['entities', 6]], [MT, ['mut', 10000, 400], ['entities', 16]], 'impl-oracle'),
-    'dtdpairs': sp_verdict('dtdpairs', [['model', 2000, 20], ['mut', 1000, 400], ['enum', 2, 0]],
-                           [['model', 30000, 20], ['mut', 20000, 1000], ['enum', 3, 0], ['fixtures', 20000]], 'impl-oracle'),
+    'dtdpairs': chain(sp_verdict('dtdpairs', [['model', 2000, 20], ['mut', 1000, 400], ['enum', 2, 0], ['lexedge', 1]],
+                                 [['model', 30000, 20], ['mut', 20000, 1000], ['enum', 3, 0], ['fixtures', 20000], ['lexedge', 1]], 'impl-oracle', limits=True),
+                      sp_verdict('lxmlsum', [['model', 1500, 0], ['lexedge', 1]], [['model', 20000, 0], ['lexedge', 1], ['fixtures', 20000]], 'impl-oracle')),
     'ord': sp_ord,
     'features': sp_features,
     'threads': sp_threads,
     'pieces_text': sp_gen_tie([['pieces2-text', 2], ['entities', 8], ['exotic', 10]], [['pieces2-text', 3], ['entities', 32], ['exotic', 100]]),
     'pieces_attr': sp_gen_tie([['pieces2-attr', 2], ['entities', 8], ['exotic', 10]], [['pieces2-attr', 3], ['entities', 32], ['exotic', 100]]),
     'markup': sp_gen_tie([['exotic', 10], ['entity-boundary', 1]], [['exotic', 100], ['entity-boundary', 1]]),
-    'storage': sp_gen_tie([['pieces2-text', 2], ['pieces2-attr', 2], ['exotic', 10]], [['pieces2-text', 3], ['pieces2-attr', 3], ['exotic', 100]]),
+    'storage': chain(sp_gen_tie([['pieces2-text', 2], ['pieces2-attr', 2], ['exotic', 10]], [['pieces2-text', 3], ['pieces2-attr', 3], ['exotic', 100]]),
+                     sp_verdict('apiborrow', [['model', 1500, 10], ['ns', 1], ['lexedge', 1], ['entities', 4]], [['model', 20000, 10], ['ns', 10], ['lexedge', 1], ['entities', 16], ['fixtures', 20000]], 'impl-oracle')),
     'lookups': sp_gen_tie([['ns', 3]], [['ns', 40]]),
     'tree': sp_gen_tie([['entity-boundary', 1], ['entities', 4]], [['entity-boundary', 1], ['entities', 32]]),
 }
